@@ -857,6 +857,15 @@ impl Engine for C07 {
                     2 => len.saturating_sub(1 + f.below(22.min(len.max(1)))), // end-of-central-directory record
                     _ => f.below(len.max(1)),
                 };
+                // a whole field of one central directory record wiped (crc-32 at +16, compressed size at +20, uncompressed
+                // size at +24): a flipped bit never makes a size say 0 (missed seeded change C07-17: entries whose
+                // directory record says "0 bytes" not read)
+                let cd_records: Vec<u64> = jar.windows(4).enumerate().filter(|(i, w)| *i as u64 >= cd_off && *w == [0x50, 0x4b, 0x01, 0x02]).map(|(i, _)| i as u64).collect();
+                if !cd_records.is_empty() && f.chance(15) {
+                    let rec = *f.pick(&cd_records);
+                    p.io.faults.push(Fault::Zero { off: rec + *f.pick(&[16u64, 20, 24, 24]), len: 4 });
+                    continue;
+                }
                 let fault = match f.below(8) {
                     0 | 1 => Fault::Flip { off, bit: f.below(8) as u8 },
                     2 | 3 => Fault::Eof { at: if f.chance(20) { len - 1 } else { off } },
@@ -905,7 +914,9 @@ impl Engine for C07 {
             if z.chance(20) {
                 // the provider walks the entries once, remap once: about 3 operations per entry and walk
                 let span = 7 * p.entries.len() as u64 + 6;
-                p.lazy = Some(LazyPlan::draw(&mut z, span, 2 * p.entries.len() as u64));
+                let mut lp = LazyPlan::draw(&mut z, span, 2 * p.entries.len() as u64);
+                lp.odd_names = z.chance(25);
+                p.lazy = Some(lp);
             }
         }
         // debugging aid: VERIF_C07_DUMP_RUN=<run index> writes that run's plan as a replay file
@@ -1127,7 +1138,23 @@ impl Engine for C07 {
                     // the data is intact whatever failed in between: an answer must be THE answer (the order of the output
                     // entries is not the property's subject: with a drawn names order the comparison is by entry name)
                     let (mut v, mut t0_sorted) = (v, t0_entries.clone());
-                    if lp.names_order != 0 {
+                    if lp.odd_names {
+                        // class entries were handed out under names that do not end in `.class`: nothing says under which
+                        // entry name such a class comes back, so classes are compared by their own name (missed seeded
+                        // change C07-18: only entries that LOOK like classes were remapped)
+                        let rekey = |e: &mut Vec<(String, EntryData)>| {
+                            for (n, d) in e.iter_mut() {
+                                if let EntryData::File(b) = d {
+                                    if let Some(name) = refclass::parse(b).ok().and_then(|s| s.this_class.to_str()) {
+                                        *n = format!("class {name}");
+                                    }
+                                }
+                            }
+                        };
+                        rekey(&mut v);
+                        rekey(&mut t0_sorted);
+                    }
+                    if lp.names_order != 0 || lp.odd_names {
                         v.sort_by(|a, b| a.0.cmp(&b.0));
                         t0_sorted.sort_by(|a, b| a.0.cmp(&b.0));
                     }
